@@ -290,7 +290,10 @@ def explore(pid, tier, seed, use_model, case_iter=None, pool=None):
                 tot["samples"] += r["samples"][:1]
     finally:
         if own:
-            pool.terminate()
+            if os.environ.get("VERIF_POOL_JOIN") == "1":      # dev: let coverage.py flush its data in the workers
+                pool.close(); pool.join()
+            else:
+                pool.terminate()
     return tot
 
 
